@@ -13,7 +13,8 @@ LEAN_MODULES = ['Pfst.Props.C18']
 LEAN_DEPS = ['Pfst.Sub', 'Pfst.SubLemmas']
 THEOREMS = ['Pfst.C18.sub_spec', 'Pfst.C18.sub_counts', 'Pfst.C18.sub_counts_cap', 'Pfst.C18.sub_frame',
             'Pfst.C18.sub_frame_kids', 'Pfst.C18.sub_frame_node', 'Pfst.C18.sub_identity', 'Pfst.C18.sub_nested_id',
-            'Pfst.C18.nested_dirty_kept', 'Pfst.C18.edge_item', 'Pfst.C18.edge_item_empty', 'Pfst.C18.ex_nested']
+            'Pfst.C18.nested_dirty_kept', 'Pfst.C18.edge_item', 'Pfst.C18.edge_item_virtual', 'Pfst.C18.edge_item_empty',
+            'Pfst.C18.ex_nested']
 RULE = ('generated small programs (calls, lists, tuples, operators, attributes, subscripts, conditional expressions, nested '
         'if/while/for/def) x 39 pattern families (bare node, node tags, whole list field views, quantifier slices MQSTAR/MQPLUS, '
         'sub-sequence quantifiers, multi-node and whole-match tags; expression and statement patterns) x 40 template formats '
@@ -23,7 +24,10 @@ RULE = ('generated small programs (calls, lists, tuples, operators, attributes, 
         'constant, mixed with node slots, multi-line strings, multi-byte text, captured text shorter/longer than the slot name) '
         'x nested x on(enter/leave) x count(0..3) x loop(False,1,2,3,True); loop chains: 7 pattern/template pairs whose rewrite '
         'keeps matching a bounded number of times, over programs with 2-5 match locations of different chain lengths (0..6), '
-        'loop in {1,2,3,4,6,True}; plus the documentation examples as directed cases. (a) correspondence: tree, per-node match results of the REAL matcher and the '
+        'loop in {1,2,3,4,6,True}; virtual fields: calls and class definitions whose positional, *starred, keyword and **kw '
+        'arguments interleave in every legal order, quantifier captures over Call._args / ClassDef._bases / Call.keywords / '
+        'Call.args whose first and last element is of each kind, templates with the slice in a call or class argument list; '
+        'plus the documentation examples as directed cases. (a) correspondence: tree, per-node match results of the REAL matcher and the '
         'template are translated into the Lean model; when the model asks about a tree that did not exist in the input (leave, '
         'loop) the real matcher is asked and the case re-run; result tree (ctx kept) and both counts compared with the real subn. '
         '(b) sweep: the real subn against a pure-AST reference transformer written in the harness (copy.deepcopy, captures taken '
@@ -37,14 +41,17 @@ TRUSTED = ['modelled (Pfst/Sub.lean): subn driver = search/walk order for on=ent
            'after a slice put, the two returned counts; slot filling for Name slots: expression slot in a single field / in a '
            'list field (incl. Call._args with positional arguments), Expr-statement slot in a body, slot as whole template, '
            'multi-statement (Module) templates; slice-vs-one decision (one = not slice, one_override, pfield.idx is None); '
-           '_sub_quantifier_list_edge_item index arithmetic and the _get_slice range',
+           '_sub_quantifier_list_edge_item index arithmetic incl. the mapping of Call.args/keywords (ClassDef.bases/keywords) '
+           'elements to their index in the virtual field _args/_bases (source order; the harness passes the REAL field and '
+           'pfield.idx of every captured element and the layout from CPython positions) and the _get_slice range',
            'not modelled: the matcher (parameter; C17), copy/put/coercion of source text (C01/C04/C19; the sweep checks the '
            'result with CPython), slots other than Name (identifier slots; string slots are in the reference sweep only, not in the model; Dict/MatchMapping "...": pairs, '
            'comprehension/ExceptHandler/match_case forms), the special parents BoolOp/Compare/withitem/arguments/MatchClass/'
            'keyword, __FSO_ on a slice and __FSS_ on a node (container coercions), callback/callback_after, self_/recurse/'
            'scope/back/asts, f-string parents; generated cases falling there are tallied as skipped',
            'the walk order of the model is the order of field blocks; programs whose syntax order interleaves fields '
-           '(Dict, Compare chains, arguments with defaults) are skipped for count>0 only',
+           '(Dict, Compare chains, arguments with defaults) are skipped for count>0 only; intermediate trees (on=leave, loop) with '
+           'interleaved call arguments cannot be re-created from a bare AST and are skipped (tallied)',
            'expr_context is kept in the compared trees; captured nodes are only moved between Load positions by the generator']
 ASSUMPTIONS = ['the matcher is a function of the subtree only (the harness asks the real matcher about detached copies of '
                'intermediate trees)',
@@ -62,7 +69,7 @@ LEVEL_NOTE = ('Partial: the general nested=True statement (result = template wit
 TECHNIQUE = 'Lean 4 proof (induction on fuel and nested trees, omega, decide) + model-implementation correspondence + reference-transformer sweep'
 
 FUEL = 300
-LFUEL = 10
+LFUEL = 6
 MAX_ROUNDS = 6
 
 
@@ -105,7 +112,7 @@ def _prepare0(job):
         for f in root.walk(True):
             if isinstance(f.a, ast.expr_context):
                 continue
-            g = L.to_gen(f.a)
+            g = L.to_gen(f.a, True)
             k = L.gen_key(g)
             if k in table:
                 continue
@@ -119,7 +126,7 @@ def _prepare0(job):
     if s['count'] and not L.order_safe(root.a):
         out['skip'] = 'count with interleaved fields (walk order not modelled)'
         return out
-    tree = I.tree(L.to_gen(root.a))
+    tree = I.tree(L.to_gen(root.a, True))
     tab = [[I.tree(g), None if env is None else L.intern_env(env, I)] for g, env in table.values()]
     tm = [troot[0], L.intern_tmpl(troot[1], I)] if troot[0] == 'single' else \
         [troot[0], [L.intern_tmpl(k, I) for k in troot[1]]]
@@ -165,6 +172,10 @@ def _extend0(arg):
         g = I.untree(t)
         try:
             f = L.fst_of_gen(g)
+            if L.to_gen(f.a, True) != g:
+                # Python source cannot be re-created from a bare AST with interleaved keywords / starred arguments
+                st['skip'] = 'intermediate tree cannot be rebuilt in the same argument order'
+                return st
             m = f.match(pat)
             env = L.env_of(m, tags) if m else None
         except L.Unmodelled as e:
@@ -197,7 +208,7 @@ def _real(job):
         return {'exc': 'RecursionError'}
     except Exception as e:
         return {'exc': type(e).__name__, 'msg': str(e)[:120]}
-    return {'tree': L.to_gen(root.a), 'unique': u, 'total': t, 'src': root.src}
+    return {'tree': L.to_gen(root.a, True), 'unique': u, 'total': t, 'src': root.src}
 
 
 def _lean_batch(cases):
@@ -274,13 +285,14 @@ def run_model(ctx, states):
 def correspondence(ctx):
     rng = random.Random(ctx.rng.random())
     jobs = [dict(j) for j in L.DIRECTED] + L.gen_jobs(rng, 800 if ctx.quick else 9000, string_slots=False) \
-        + L.gen_chain_jobs(rng, 300 if ctx.quick else 3000)
+        + L.gen_chain_jobs(rng, 300 if ctx.quick else 3000) + L.gen_arglike_jobs(rng, 250 if ctx.quick else 2500)
     k = max(1, len(jobs) // 32)
     rng.shuffle(jobs)
     results = [r for lst in pmap(_pipeline_chunk, [jobs[i:i + k] for i in range(0, len(jobs), k)], chunksize=1) for r in lst]
     name = 'subn vs Pfst.Sub.run'
     bad = n = refused = 0
     first = None
+    timeouts = []
     for res in results:
         s = res['job']
         if 'skip' in res:
@@ -304,6 +316,12 @@ def correspondence(ctx):
             elif r['exc'] not in L.REFUSALS:
                 what = f'model: documented refusal; pfst raised {r["exc"]}'
             ctx.count((s['src'], s['pat'], s['tmpl'], str(s['set'])), True)
+        elif 'exc' in r and r['exc'] == 'Timeout':
+            timeouts.append(s)
+            ctx.tally('corr_skipped', 'pfst did not finish in 20 s (size blow-up)')
+            n -= 1
+            ctx.corr_cases -= 1
+            continue
         elif 'exc' in r:
             if r['exc'] in L.REFUSALS:
                 refused += 1
@@ -337,6 +355,11 @@ def correspondence(ctx):
     ctx.dist.setdefault('correspondence_cases', {})[name] = n
     if first:
         ctx.sample({'corr': name, 'src': first['src'][:200], 'pat': first['pat'], 'tmpl': first['tmpl'], 'set': first['set']})
+    ctx.notes['corr_timeouts'] = len(timeouts)
+    if len(timeouts) > max(4, len(results) // 150):
+        job = {k: timeouts[0][k] for k in ('src', 'pat', 'tmpl', 'set', 'shape', 'placement', 'cat')}
+        ctx.hints.append((name, job))
+        ctx.brk('correspondence', name, f'{len(timeouts)} of {len(results)} real substitutions did not finish in 20 s; first: {job}')
     if n and refused > 0.5 * (n + refused):
         ctx.brk('correspondence', name, f'pfst refused {refused} of {n + refused} generated substitutions (expected well under half)')
     if bad:
@@ -397,9 +420,10 @@ def _sweep_case0(job):
         res['job'] = job
         s = job['set']
     expect_refusal = False
+    info = {}
     try:
         ref, ru, rt, kept = REF.reference(root0, job['src'], pat, job['tmpl'], job['cat'], s['nested'], s['count'],
-                                          s['loop'], s['on'])
+                                          s['loop'], s['on'], info=info)
     except REF.Skip as e:
         res['skip'] = 'reference: ' + str(e)
         return res
@@ -417,6 +441,9 @@ def _sweep_case0(job):
     except Exception as e:
         real = {'exc': type(e).__name__, 'msg': str(e)[:120]}
     if 'exc' in real:
+        if real['exc'] == 'Timeout':
+            res['timeout'] = True           # judged in bulk (_report): a few blow-ups (whole match copied several times
+            return res                      # under leave/loop/nested) are expected, many are not
         if real['exc'] in CRASHES and not expect_refusal:
             res['fail'] = ('crash', f'subn raised {real["exc"]}: {real.get("msg", "")}')
         else:
@@ -439,7 +466,11 @@ def _sweep_case0(job):
         except SyntaxError as e:
             res['fail'] = ('no-parse', f'result source does not parse: {e}', {'expected_src_slots_unfilled': exp})
             return res
-        d = REF.cmp_ast(ref, got)
+        try:
+            d = REF.cmp_ast(ref, got)
+        except REF.Skip as e:
+            res['skip'] = 'reference: ' + str(e)
+            return res
         if d:
             res['fail'] = ('tree-differs', 're-parsed result differs from the reference transformer: ' + d,
                            {'expected_src_slots_unfilled': exp})
@@ -453,6 +484,16 @@ def _sweep_case0(job):
                                              s['loop'], s['on'], quirk=True)
                 if L.to_gen(q) == real['tree'] and (qu, qt) == (real['unique'], real['total']):
                     cls = 'slice-no-descent'
+            except Exception:
+                pass
+        if cls == 'tree-differs' and info.get('matcher') is not None and info['matcher'].noncontig:
+            # a quantifier captured elements that are not consecutive in the (virtual) list: does the result hold the
+            # whole first..last range instead of the captured elements?
+            try:
+                q, qu, qt, _ = REF.reference(root0, job['src'], pat, job['tmpl'], job['cat'], s['nested'], s['count'],
+                                             s['loop'], s['on'], range_fill=True)
+                if L.to_gen(q) == real['tree'] and (qu, qt) == (real['unique'], real['total']):
+                    cls = 'range-includes-uncaptured'
             except Exception:
                 pass
         try:
@@ -487,6 +528,8 @@ def _sweep_case0(job):
 def _fail_sig(job, cls):
     if cls == 'slice-no-descent':       # the result equals the reference that does not look inside a slice put
         return 'C18|stmt-pattern|multi-statement-template|enter,nested|slice-no-descent'
+    if cls == 'range-includes-uncaptured':   # the result equals the reference that fills the first..last range of the list
+        return 'C18|quantifier-over-args-or-keywords|interleaved-arguments|any|range-includes-uncaptured'
     if cls == 'constant-value-stale':   # C01 fails and the only difference is the value of slot-bearing string constants
         return 'C18|any|string-slot|any|constant-value-stale'
     return f'C18|{job["shape"]}|{job["placement"]}|{L.setting_name(job["set"])}|{cls}'
@@ -495,7 +538,7 @@ def _fail_sig(job, cls):
 def sweep_jobs(ctx, n, layouts):
     import corpus
     rng = random.Random(ctx.rng.random())
-    jobs = L.gen_jobs(rng, n) + L.gen_chain_jobs(rng, n // 3, allow_nested=False)
+    jobs = L.gen_jobs(rng, n) + L.gen_chain_jobs(rng, n // 3, allow_nested=False) + L.gen_arglike_jobs(rng, n // 4)
     # the reference covers loop and nested separately
     for j in jobs:
         if j['set']['loop'] is not False and j['set']['nested'] and j['set']['on'] == 'enter':
@@ -510,8 +553,18 @@ def sweep_jobs(ctx, n, layouts):
 
 def _report(ctx, results):
     n = 0
+    tmo = [r for r in results if r.get('timeout')]
+    ctx.notes['sweep_timeouts'] = len(tmo)
+    if len(tmo) > max(4, len(results) // 150):
+        job = tmo[0]['job']
+        ctx.fail(_fail_sig(job, 'timeout'), f'{len(tmo)} of {len(results)} substitutions did not finish in 20 s; first: '
+                 f'sub({job["pat"]}, {job["tmpl"]!r}, {job["set"]})',
+                 {k: job[k] for k in ('src', 'pat', 'tmpl', 'set', 'cat', 'shape', 'placement')})
     for r in results:
         job = r['job']
+        if r.get('timeout'):
+            ctx.tally('sweep_skipped', 'pfst did not finish in 20 s (size blow-up)')
+            continue
         if 'skip' in r:
             ctx.tally('sweep_skipped', r['skip'])
             continue
